@@ -1,0 +1,65 @@
+// SPDX-FileCopyrightText: 2026 The Pion community <https://pion.ly>
+// SPDX-License-Identifier: MIT
+
+//go:build verif && !js
+
+package webrtc
+
+import (
+	"sort"
+
+	"github.com/pion/webrtc/v4/internal/fmtp"
+)
+
+// VerifFmtpMatch is fmtp.Parse(a…).Match(fmtp.Parse(b…)): internal/fmtp cannot be imported from a
+// foreign module (verification hook, C17).
+func VerifFmtpMatch(
+	mimeA string, clockA uint32, chA uint16, lineA string,
+	mimeB string, clockB uint32, chB uint16, lineB string,
+) bool {
+	return fmtp.Parse(mimeA, clockA, chA, lineA).Match(fmtp.Parse(mimeB, clockB, chB, lineB))
+}
+
+// VerifFmtpMimeType is fmtp.Parse(…).MimeType(): tells which FMTP implementation Parse selected.
+func VerifFmtpMimeType(mime string, clock uint32, ch uint16, line string) string {
+	return fmtp.Parse(mime, clock, ch, line).MimeType()
+}
+
+// VerifFmtpParameter is fmtp.Parse(…).Parameter(key).
+func VerifFmtpParameter(mime string, clock uint32, ch uint16, line, key string) (string, bool) {
+	return fmtp.Parse(mime, clock, ch, line).Parameter(key)
+}
+
+// VerifFmtpParameters returns the parsed parameter map of an fmtp line as key/value pairs sorted by key.
+func VerifFmtpParameters(line string) [][2]string {
+	m := fmtp.VerifParseParameters(line)
+	out := make([][2]string, 0, len(m))
+	for k, v := range m {
+		out = append(out, [2]string{k, v})
+	}
+	sort.Slice(out, func(i, j int) bool { return out[i][0] < out[j][0] })
+
+	return out
+}
+
+// VerifFmtpClockRateEqual re-exports fmtp.ClockRateEqual.
+func VerifFmtpClockRateEqual(mime string, a, b uint32) bool {
+	return fmtp.ClockRateEqual(mime, a, b)
+}
+
+// VerifFmtpChannelsEqual re-exports fmtp.ChannelsEqual.
+func VerifFmtpChannelsEqual(mime string, a, b uint16) bool {
+	return fmtp.ChannelsEqual(mime, a, b)
+}
+
+// VerifDefaultCodecs returns what RegisterDefaultCodecs registers on a fresh MediaEngine, audio first,
+// each kind in registration order.
+func VerifDefaultCodecs() ([]RTPCodecParameters, error) {
+	m := &MediaEngine{}
+	if err := m.RegisterDefaultCodecs(); err != nil {
+		return nil, err
+	}
+	out := append([]RTPCodecParameters{}, m.audioCodecs...)
+
+	return append(out, m.videoCodecs...), nil
+}
